@@ -185,7 +185,7 @@ func c10runJob(j c10job) (out c10out) {
 		ft.OnWrite = func(b []byte) {
 			wlog = append(wlog, curGoid())
 			term.Feed(b)
-			out.Blocks++
+			out.Blocks++ // under the tty lock; read only after the loops have ended
 			if !term.InGround() && termErr.Load() == nil {
 				termErr.Store(fmt.Sprintf("a write block of %d bytes ends inside a control sequence or character: %q", len(b), tail(b, 40)))
 			}
@@ -282,10 +282,9 @@ func c10runJob(j c10job) (out c10out) {
 	go func() { wg.Wait(); close(done) }()
 	select {
 	case <-done:
-	case <-time.After(120 * time.Second):
-		out.Hung = true
-		out.Problem = "method loops did not finish within 120s (shutdown liveness is C06's)"
-		return
+	case <-time.After(300 * time.Second):
+		// the loops are still running and own every local: return a fresh value
+		return c10out{Idx: j.Idx, Hung: true, Problem: "method loops did not finish within 300s (shutdown liveness is C06's)"}
 	}
 	atomic.StoreInt32(&stop, 1)
 	bg.Wait()
@@ -306,9 +305,7 @@ func c10runJob(j c10job) (out c10out) {
 		select {
 		case <-fd:
 		case <-time.After(60 * time.Second):
-			out.Hung = true
-			out.Problem = "final Fini did not return within 60s (C06's)"
-			return
+			return c10out{Idx: j.Idx, Hung: true, Problem: "final Fini did not return within 60s (C06's)"}
 		}
 	}
 	if e := termErr.Load(); e != nil {
@@ -374,6 +371,20 @@ func parseRaceLog(text string) []raceReport {
 		}
 		var entries []string
 		isT := false
+		// the racing access belongs to the first frame that is not the standard library:
+		// a report counts against tcell only when both accesses are tcell's
+		tcellAccesses := 0
+		for _, st := range stacks {
+			for _, f := range st {
+				if strings.HasPrefix(f, "github.com/gdamore/tcell/v2.") {
+					tcellAccesses++
+					break
+				}
+				if strings.HasPrefix(f, "verif/") || strings.HasPrefix(f, "main.") {
+					break
+				}
+			}
+		}
 		for _, st := range stacks {
 			outer := ""
 			for _, f := range st { // innermost first; keep the last (outermost) tcell frame
@@ -388,7 +399,7 @@ func parseRaceLog(text string) []raceReport {
 			entries = append(entries, outer)
 		}
 		sort.Strings(entries)
-		out = append(out, raceReport{sig: strings.Join(entries, " | "), text: strings.TrimSpace(blk), tcell: isT})
+		out = append(out, raceReport{sig: strings.Join(entries, " | "), text: strings.TrimSpace(blk), tcell: isT && tcellAccesses == len(stacks) && len(stacks) >= 2})
 	}
 	return out
 }
